@@ -504,7 +504,7 @@ _rejapi = _pair('c14', 'rejected_api', (120, 300), 'add_zone(bad domain), add_pa
 _isol = _pair('c14', 'isolation', (400, 900), 'two logical files: zone set names from {None,A,B} (different), 6 interleavings of origin/zone additions, explicit/default second origin reference',
               ['LogicalFile.add_origin', 'LogicalFile.add_zone', 'DLISFile.generator', 'EFLRSetsDict.get_or_make_set'], replay=ST + 'replay_isolation', validate=ST + 'replay_isolation') + [
     dict(fn=H + 'c14.ob_isolation_shared_origin', kind='universal', timeout=(400, 900), replay=ST + 'replay_isolation', shards=(6, 6),
-         bounds='two logical files whose origins go to the SAME origin set name (default or named; the F12 sub-region where the library is fail-closed): zone set names from {None,A,B}^2, channel / frame sets per file or shared, 6 interleavings, explicit / default second reference: refused, never one file\'s objects in the other (finite, exhaustive)',
+         bounds='two logical files whose origins go to the SAME origin set name (default or named; the F12 sub-region where the library is fail-closed): zone set names from {None,A,B}^2, channel / frame sets per file or shared, header identifiers different / equal, 6 interleavings, explicit / default second reference: refused (at the latest when the file header is encoded), never one file\'s objects in the other (finite, exhaustive)',
          entry=['LogicalFile.add_origin', 'LogicalFile.check_objects', 'DLISFile.generator']),
     dict(fn=H + 'c14.kf_isolation_shared', kind='kf', timeout=(300, 300), replay=ST + 'replay_isolation', bounds='F12 region: the same set class and name used in both logical files')]
 
